@@ -5,10 +5,10 @@ import json, subprocess, re
 D='/verif/DESIGN.md'
 s=open(D).read()
 m=json.load(open('/verif/MANIFEST.json'))
-tab='| id | evaluations (quick, seed 1) | distinct non-trivial | wall s | open findings observed | deciding technique |\n|---|---|---|---|---|---|\n'
+tab='| id | tier | evaluations (seed 1) | distinct non-trivial | wall s | open findings observed | deciding technique |\n|---|---|---|---|---|---|---|\n'
 for c in m['checks']:
     p=c['property_id']; ev=json.load(open(f'/verif/evidence/{p}.json')); cov=ev['coverage']
-    tab+=f"| {p} | {cov['evaluations']:,} | {cov['distinct_nontrivial']:,} | {ev['wall_s']} | {len(cov.get('known_findings_observed',[]))} | {c.get('technique','')[:110]} |\n"
+    tab+=f"| {p} | {ev['tier']} | {cov['evaluations']:,} | {cov['distinct_nontrivial']:,} | {ev['wall_s']} | {len(cov.get('known_findings_observed',[]))} | {c.get('technique','')[:110]} |\n"
 seeded=subprocess.check_output(['python3','/verif/tools/seeded_table.py']).decode()
 # replace tables: the first markdown table after each heading
 def repl_table(text, heading, new):
